@@ -459,6 +459,18 @@ OPS["TopK"] = dict(gen=_gen_topk, np=_np_topk)
 
 OP_NAMES = sorted(OPS)
 
+# Bit-reproducibility between onnxruntime and NumPy: an op in EXACT_OPS applied to exact inputs gives the same
+# float32 bits in both (IEEE elementwise arithmetic, selections, data movement).  Everything else (transcendental
+# functions, reductions, matrix products, means) may differ in the last bits, so its results never feed an op in
+# DISCONTINUOUS (comparisons, rounding, casts to int/bool, ...), where a last-bit difference flips the result.
+EXACT_OPS = {"Relu", "Neg", "Abs", "Floor", "Ceil", "Sign", "Identity", "Round", "Add", "Sub", "Mul", "Div", "Max", "Min",
+             "Less", "Greater", "LessOrEqual", "GreaterOrEqual", "Equal", "And", "Or", "Xor", "Not", "Where", "Clip", "Cast",
+             "Reshape", "Transpose", "Unsqueeze", "Squeeze", "Flatten", "Concat", "Slice", "Gather", "Shape", "Expand", "Split",
+             "TopK", "LeakyRelu", "ThresholdedRelu", "Mod", "ReduceMax"}
+DISCONTINUOUS = {"Less", "Greater", "LessOrEqual", "GreaterOrEqual", "Equal", "Floor", "Ceil", "Round", "Sign", "Cast", "TopK",
+                 "Mod", "ThresholdedRelu"}
+EXACT_FNS = {"mul_add_relu", "add_mul", "leaky", "twice_minus", "neg_abs"}
+
 
 # --------------------------------------------------------------------------- functions (script / IR)
 
@@ -530,10 +542,13 @@ class Gen:
         self.names = itertools.count()
         self.vals = {}      # id -> dict(id, dtype, shape, bounded)
 
-    def new(self, dtype, shape, bounded=False):
+    def new(self, dtype, shape, bounded=False, exact=False):
         i = next(self.ids)
-        self.vals[i] = dict(id=i, dtype=dtype, shape=tuple(shape), bounded=bounded)
+        self.vals[i] = dict(id=i, dtype=dtype, shape=tuple(shape), bounded=bounded, exact=exact)
         return self.vals[i]
+
+    def all_exact(self, args):
+        return all(self.vals[a[1]]["exact"] for a in args if a[0] == "v")
 
     def trace(self):
         rng = self.rng
@@ -541,7 +556,7 @@ class Gen:
         inputs = []
         pool = []
         for k, sh in enumerate(shapes):
-            v = self.new(F, sh, bounded=True)
+            v = self.new(F, sh, bounded=True, exact=True)
             inputs.append((f"x{k}", F, sh, v["id"]))
             pool.append(v)
         steps = self.steps(pool, [], self.n_steps, 0)
@@ -593,9 +608,12 @@ class Gen:
             if g is None:
                 continue
             args, attrs, nouts, types = g
+            ex = self.all_exact(args)
+            if name in DISCONTINUOUS and not ex:
+                continue
             ids = []
             for (dt, sh, bd) in types:
-                v = self.new(dt, sh, bd)
+                v = self.new(dt, sh, bd, exact=ex and name in EXACT_OPS)
                 ids.append(v["id"])
                 pool.append(v)
             return dict(kind="op", scope=list(scope), op=name, args=args, attrs=attrs, outs=self.outs_spec(nouts), subs=[], ids=ids)
@@ -613,8 +631,9 @@ class Gen:
         if f["attrs"]:
             attrs[f["attrs"][0]] = rng.choice(f["attrs"][1])
         ids = []
+        ex = all(w["exact"] for w in ws[:f["nin"]]) and f["name"] in EXACT_FNS
         for _ in range(f["nout"]):
-            w = self.new(F, v["shape"], False)
+            w = self.new(F, v["shape"], False, exact=ex)
             ids.append(w["id"])
             pool.append(w)
         outs = [f"t{next(self.names)}" for _ in range(f["nout"])] if rng.random() < 0.3 else None
@@ -624,13 +643,13 @@ class Gen:
     def scalar_bool(self, pool, scope, pre):
         """Steps producing a 0-d bool from some float value: ReduceSum(x) > literal."""
         rng = self.rng
-        v = _pick(rng, pool, F, rank_min=1)
+        v = _pick(rng, pool, F, rank_min=1, pred=lambda v: v["exact"])
         if v is None:
             return None
-        r = self.new(F, (), False)
+        r = self.new(F, (), False, exact=True)
         ax = list(range(len(v["shape"])))
-        pre.append(dict(kind="op", scope=list(scope), op="ReduceSum", args=[("v", v["id"]), ("lit", ax)], attrs={"keepdims": 0}, outs=1, subs=[], ids=[r["id"]]))
-        c = self.new(Bo, (), False)
+        pre.append(dict(kind="op", scope=list(scope), op="ReduceMax", args=[("v", v["id"]), ("lit", ax)], attrs={"keepdims": 0}, outs=1, subs=[], ids=[r["id"]]))
+        c = self.new(Bo, (), False, exact=True)
         pre.append(dict(kind="op", scope=list(scope), op="Greater", args=[("v", r["id"]), ("lit", rng.choice([0.0, 1.0, -2.0]))], attrs={}, outs=1, subs=[], ids=[c["id"]]))
         return c
 
@@ -644,8 +663,8 @@ class Gen:
             ret = rng.choice(cands)
         else:
             src = rng.choice([v for v in local if (v["dtype"], v["shape"]) == want])
-            ret = self.new(want[0], want[1], src["bounded"])
-            body.append(dict(kind="op", scope=list(scope), op="Identity" if want[0] == F else "Identity", args=[("v", src["id"])], attrs={}, outs=1, subs=[], ids=[ret["id"]]))
+            ret = self.new(want[0], want[1], src["bounded"], exact=src["exact"])
+            body.append(dict(kind="op", scope=list(scope), op="Identity", args=[("v", src["id"])], attrs={}, outs=1, subs=[], ids=[ret["id"]]))
         decl = f"br{next(self.names)}" if rng.random() < 0.7 else ""
         return dict(ins=[], body=body, rets=[ret["id"]], decl=[decl])
 
@@ -672,8 +691,8 @@ class Gen:
             return None
         trip = rng.choice([0, 1, 2, 3])
         n = next(self.names)
-        it = self.new(I, (), True)
-        ci = self.new(Bo, (), True)
+        it = self.new(I, (), True, exact=True)
+        ci = self.new(Bo, (), True, exact=True)
         carried = self.new(F, v["shape"], False)
         local = list(pool) + [carried]
         body = self.steps(local, scope, rng.choice([1, 2]), depth + 1)
@@ -683,7 +702,7 @@ class Gen:
         else:
             ret = self.new(F, v["shape"], False)
             body.append(dict(kind="op", scope=list(scope), op="Neg", args=[("v", carried["id"])], attrs={}, outs=1, subs=[], ids=[ret["id"]]))
-        co = self.new(Bo, (), True)
+        co = self.new(Bo, (), True, exact=True)
         body.append(dict(kind="op", scope=list(scope), op="Identity", args=[("v", ci["id"])], attrs={}, outs=1, subs=[], ids=[co["id"]]))
         sub = dict(ins=[(f"iter{n}", I, (), it["id"]), (f"cond{n}", Bo, (), ci["id"]), (f"acc{n}", F, v["shape"], carried["id"])],
                    body=body, rets=[co["id"], ret["id"]], decl=[f"cond_out{n}", f"acc_out{n}" if rng.random() < 0.7 else ""])
@@ -713,6 +732,32 @@ def gen_trace(rng, **kw):
     # real builder creates values in execution order; renumber ids in execution order
     t["steps"] = flatten_pre(t["steps"])
     return renumber(t, g.vals)
+
+
+def directed_traces():
+    """Hand-written traces aimed at the naming scheme: consecutive multi-output calls of the same operator
+    (v_<op>_<count>_<i> against v_<op>_<count'>), the same operator under scope stacks with the same
+    dotted rendering, multi-output next to single-output calls."""
+    def op(scope, name, args, attrs, outs, ids):
+        return dict(kind="op", scope=scope, op=name, args=args, attrs=attrs, outs=outs, subs=[], ids=ids)
+    t1 = {"inputs": [("x0", F, (2, 6), 0)],
+          "steps": [op([], "Split", [("v", 0)], {"axis": -1, "num_outputs": 3}, 3, [1, 2, 3]),
+                    op([], "Split", [("v", 1)], {"axis": -1, "num_outputs": 2}, 2, [4, 5]),
+                    op([], "Split", [("v", 2)], {"axis": -1, "num_outputs": 2}, 2, [6, 7]),
+                    op([], "TopK", [("v", 0), ("lit", [2])], {}, 2, [8, 9]),
+                    op([], "TopK", [("v", 8), ("lit", [1])], {}, 2, [10, 11]),
+                    op([], "Relu", [("v", 10)], {}, 1, [12])],
+          "outputs": [4, 7, 12, 11],
+          "types": {0: (F, (2, 6)), 1: (F, (2, 2)), 2: (F, (2, 2)), 3: (F, (2, 2)), 4: (F, (2, 1)), 5: (F, (2, 1)), 6: (F, (2, 1)),
+                    7: (F, (2, 1)), 8: (F, (2, 2)), 9: (I, (2, 2)), 10: (F, (2, 1)), 11: (I, (2, 1)), 12: (F, (2, 1))}}
+    t2 = {"inputs": [("x0", F, (3,), 0)],
+          "steps": [op(["a.b"], "Relu", [("v", 0)], {}, 1, [1]),
+                    op(["a", "b"], "Relu", [("v", 1)], {}, 1, [2]),
+                    op(["a", "", "b"], "Relu", [("v", 2)], {}, 1, [3]),
+                    op([], "Add", [("v", 3), ("lit", 1.0)], {}, 1, [4]),
+                    op(["a.b"], "Add", [("v", 4), ("lit", 1)], {}, ["sum"], [5])],
+          "outputs": [5], "types": {i: (F, (3,)) for i in range(6)}}
+    return [t1, t2]
 
 
 def renumber(t, vals):
@@ -1054,8 +1099,17 @@ def np_replay(trace, feeds):
             assert len(res) == len(s["ids"]), (s, len(res))
             for i, v in zip(s["ids"], res):
                 env[i] = np.asarray(v)
+                if env[i].dtype.kind == "f" and env[i].size:
+                    fin = np.abs(env[i][np.isfinite(env[i])])
+                    if fin.size:
+                        scale[0] = max(scale[0], float(fin.max()))
+    scale = [1.0]
     run(trace["steps"], env)
+    LAST_SCALE[0] = scale[0]
     return [env[i] for i in trace["outputs"]]
+
+
+LAST_SCALE = [1.0]   # largest finite intermediate magnitude of the last np_replay (error propagation bound for `close`)
 
 
 def make_feeds(trace, k):
@@ -1086,13 +1140,17 @@ def ort_run(model_proto, feeds):
     return ort_session(model_proto).run(None, feeds)
 
 
-def close(a, b):
+def close(a, b, scale=None):
+    """Integer / bool outputs exactly; float outputs within rtol 2e-4 and an absolute tolerance of 2e-5 times the
+    largest intermediate magnitude of the NumPy reading (last-bit differences of transcendental kernels and
+    reductions propagate through cancellations in proportion to the operands)."""
     a, b = np.asarray(a), np.asarray(b)
     if a.shape != b.shape or a.dtype != b.dtype:
         return False
     if a.dtype.kind in "iub":
         return bool(np.array_equal(a, b))
-    return bool(np.allclose(a, b, rtol=2e-4, atol=2e-5, equal_nan=True))
+    scale = LAST_SCALE[0] if scale is None else scale
+    return bool(np.allclose(a, b, rtol=2e-4, atol=2e-5 * max(1.0, scale), equal_nan=True))
 
 
 # --------------------------------------------------------------------------- Coq printers
@@ -1215,9 +1273,9 @@ def trace_case_lit(trace, info, proto):
 
 
 def name_report(g):
-    """Value-name facts of a GraphProto: duplicates that redefine a visible (outer or same-graph) name, and
-    duplicates between disjoint scopes; duplicate node names within one graph."""
-    rep = {"redefines_visible": [], "disjoint_dups": [], "node_dups": [], "all_value_names": 0}
+    """Value-name facts of a GraphProto: a name defined twice in one graph, a name of an enclosing graph defined
+    again in a subgraph, a name used in two disjoint subgraphs; duplicate node names within one graph."""
+    rep = {"same_graph_dups": [], "redefines_visible": [], "disjoint_dups": [], "node_dups": [], "all_value_names": 0}
     seen_anywhere = {}
 
     def walk(gr, visible, path):
@@ -1238,7 +1296,9 @@ def name_report(g):
 
     def define(d, visible, local, path):
         rep["all_value_names"] += 1
-        if d in visible or d in local:
+        if d in local:
+            rep["same_graph_dups"].append((path, d))
+        elif d in visible:
             rep["redefines_visible"].append((path, d))
         elif d in seen_anywhere:
             rep["disjoint_dups"].append((path, d))
